@@ -36,7 +36,7 @@ class Fn:
 
     def tmp(self):
         self.fresh += 1
-        return "x%d" % self.fresh
+        return "tmp%d" % self.fresh
 
     def pure(self, e):
         if isinstance(e, ast.Constant) and isinstance(e.value, int) and not isinstance(e.value, bool):
